@@ -48,7 +48,7 @@ def run(ctx):
     ctx.assumptions += ["atomics are sequentially consistent in the model (memory_order_relaxed on common_index not modelled)",
                         "blocking waits are over-approximated by re-reading (safety only; termination is observed, not proved)",
                         "the OS scheduler + sched_yield injection choose the interleavings of the real runs",
-                        "micro-op interpreter specialised by hand to the cores proved equal to the generated programs"]
+                        "semantics of each micro-op in the generic interpreter (Interp.lean); the hand-written transition system is proved to be its abstraction"]
     ctx.ensure_simgrid(["simgrid"])
     # ---- tie 1: translator
     spec = importlib.util.spec_from_file_location("c49_translate", os.path.join(ctx.pdir, "translate.py"))
